@@ -562,8 +562,12 @@ class Plugin:
             # all sources are requested all the way (including the final
             # Stopiteration), as required by lazy-mode processing requires
             for d in iters.keys():
-                if self._fetch_chunk(d, iters):
-                    raise RuntimeError(f"Plugin {d} terminated without fetching last {d}!")
+                end_before = self.input_buffer[d].end
+                while self._fetch_chunk(d, iters):
+                    # Trailing chunks of zero duration (which another input that
+                    # ended at the same time never asked for) carry nothing.
+                    if self.input_buffer[d].end != end_before:
+                        raise RuntimeError(f"Plugin {d} terminated without fetching last {d}!")
 
             # This can happen especially in time range selections
             if hasattr(self.save_when, "values"):
